@@ -92,6 +92,15 @@ Fixpoint leaves (fuel : nat) (d : vtypes) (alts : list valt) (own : option bytes
            end
     end
   end.
+(* fuel for `leaves`: one unit per alternative looked at; every type is expanded once (Proofs/LeavesComplete.v) *)
+Definition node_size (n : vnode) : nat := match n with VRefs inner => length inner | _ => 0 end.
+Fixpoint weight (dd : vtypes) (seen : list tname) : nat :=
+  match dd with
+  | [] => 0
+  | (t, (_, n)) :: r => (if memn t seen then 0 else S (node_size n)) + weight r seen
+  end.
+Definition proj_fuel (d : vtypes) (root : bytes * vnode) : nat := S (node_size (snd root) + 2 * weight d []).
+
 (* checkLinksOfNode: the example's json type must be among the types of the alternatives (null for a nullable one) *)
 Definition kind_allowed (v : bytes) (lo : leaf * option bytes) : bool :=
   match fst lo with
